@@ -342,7 +342,7 @@ func (p *Program) InAllContexts(site ssa.Instruction, vals []ssa.Value, within m
 			return true
 		}
 		fn := site.Parent()
-		if depth > 8 || visiting[fn] {
+		if depth > 8 {
 			return false
 		}
 		// validators: the site is only reached when an in-repository function returned a nil
@@ -365,7 +365,29 @@ func (p *Program) InAllContexts(site ssa.Instruction, vals []ssa.Value, within m
 			visiting[g] = true
 			all := true
 			for _, r := range rets {
-				if !rec(r, tv, depth+1) {
+				// a value that is a result of the validating call itself (`req, err := parse(…)`) is,
+				// inside the callee, what that return statement yields
+				rv := tv
+				if ret, isRet := r.(*ssa.Return); isRet {
+					for i, v := range vals {
+						if tv[i] != nil || v == nil {
+							continue
+						}
+						rsv := Resolve(v)
+						if ex, isEx := rsv.(*ssa.Extract); isEx && ex.Tuple == ssa.Value(vc) && ex.Index < len(ret.Results) {
+							if &rv[0] == &tv[0] {
+								rv = append([]ssa.Value(nil), tv...)
+							}
+							rv[i] = ret.Results[ex.Index]
+						} else if rsv == ssa.Value(vc) && len(ret.Results) == 1 {
+							if &rv[0] == &tv[0] {
+								rv = append([]ssa.Value(nil), tv...)
+							}
+							rv[i] = ret.Results[0]
+						}
+					}
+				}
+				if !rec(r, rv, depth+1) {
 					all = false
 					break
 				}
@@ -382,7 +404,8 @@ func (p *Program) InAllContexts(site ssa.Instruction, vals []ssa.Value, within m
 			}
 			use = append(use, r)
 		}
-		if len(use) == 0 {
+		if len(use) == 0 || visiting[fn] {
+			// (inside a validator whose returns are being judged there is no going up to its callers)
 			return false
 		}
 		visiting[fn] = true
